@@ -114,6 +114,48 @@ Proof.
     + intros (s & Hin & Hn & Hm & _). split; auto. exists s. auto.
 Qed.
 
+(* conditioned tag-value / tag-key listings are exact: a value (key) is listed iff some series that is not dropped, belongs to
+   the measurement and satisfies the condition carries it *)
+Theorem list_tag_values_where_exact am L del m k q v : wfL L -> okq q -> k <> 0 ->
+  In v (list_tag_values_where am (postings L) del m k q) <->
+  exists s id, In (s, id) L /\ ~ In id del /\ s_mst s = m /\ evalq am q (s_tags s) = true /\ In (k, v) (s_tags s).
+Proof.
+  intros Hwf Hq Hk. unfold list_tag_values_where. rewrite in_map_iff. split.
+  - intros (t & Ev & Ht). apply filter_In in Ht. destruct Ht as [Ht Hf]. apply andb_true_iff in Hf. destruct Hf as [Hf Hmem].
+    apply andb_true_iff in Hf. destruct Hf as [Hm Hkk]. apply N.eqb_eq in Hm. apply N.eqb_eq in Hkk.
+    apply mem_spec in Hmem. rewrite (list_ids_exact am L del m q (t_id t) Hwf Hq) in Hmem. rewrite spec_char in Hmem.
+    destruct Hmem as (s1 & Hin1 & Hn & Hm1 & He).
+    apply in_tagitems in Ht. destruct Ht as (s & id & Hin & [-> | (k' & v' & Hkv & ->)]).
+    + exfalso. apply Hk. symmetry. exact Hkk.
+    + unfold t_m, t_k, t_v, t_id in *. simpl in *. subst. destruct Hwf as [Hnd _].
+      rewrite (uniq_id _ _ _ _ Hnd Hin1 Hin) in *. exists s, id. auto.
+  - intros (s & id & Hin & Hn & Hm & He & Hkv). exists (s_mst s, k, v, id). split; [reflexivity |]. apply filter_In. split.
+    + apply in_tagitems. exists s, id. split; auto. right. eauto.
+    + unfold t_m, t_k, t_id. simpl. subst m. rewrite !N.eqb_refl. simpl. apply mem_spec.
+      rewrite (list_ids_exact am L del (s_mst s) q id Hwf Hq). rewrite spec_char. exists s. auto.
+Qed.
+
+Theorem list_tag_keys_where_exact am L del m q k : wfL L -> okq q ->
+  In k (list_tag_keys_where am (postings L) del m q) <->
+  exists s id v, In (s, id) L /\ ~ In id del /\ s_mst s = m /\ evalq am q (s_tags s) = true /\ In (k, v) (s_tags s).
+Proof.
+  intros Hwf Hq. unfold list_tag_keys_where. rewrite in_map_iff. split.
+  - intros (t & Ek & Ht). apply filter_In in Ht. destruct Ht as [Ht Hf]. apply andb_true_iff in Hf. destruct Hf as [Hf Hmem].
+    apply andb_true_iff in Hf. destruct Hf as [Hm Hnz]. apply N.eqb_eq in Hm. apply negb_true_iff in Hnz. apply N.eqb_neq in Hnz.
+    apply mem_spec in Hmem. rewrite (list_ids_exact am L del m q (t_id t) Hwf Hq) in Hmem. rewrite spec_char in Hmem.
+    destruct Hmem as (s1 & Hin1 & Hn & Hm1 & He).
+    apply in_tagitems in Ht. destruct Ht as (s & id & Hin & [-> | (k' & v' & Hkv & ->)]).
+    + exfalso. apply Hnz. reflexivity.
+    + unfold t_m, t_k, t_id in *. simpl in *. destruct Hwf as [Hnd _].
+      rewrite (uniq_id _ _ _ _ Hnd Hin1 Hin) in *. exists s, id, v'. subst. auto.
+  - intros (s & id & v & Hin & Hn & Hm & He & Hkv). exists (s_mst s, k, v, id). split; [reflexivity |]. apply filter_In. split.
+    + apply in_tagitems. exists s, id. split; auto. right. eauto.
+    + unfold t_m, t_k, t_id. simpl. subst m. rewrite N.eqb_refl. simpl.
+      assert (Hk0 : k <> 0) by (apply (wf_tags_val _ _ _ (wfL_tags _ _ _ Hwf Hin) Hkv)).
+      apply N.eqb_neq in Hk0. rewrite Hk0. simpl. apply mem_spec.
+      rewrite (list_ids_exact am L del (s_mst s) q id Hwf Hq). rewrite spec_char. exists s. auto.
+Qed.
+
 Lemma spec_ids_app am L del D m q id :
   In id (spec_ids am L (del ++ D) m q) <-> In id (spec_ids am L del m q) /\ ~ In id D.
 Proof.
